@@ -274,10 +274,62 @@ def r14_9(prog, tab):
     return r
 
 
+def r14_10(prog, tab):
+    """A failed default_value_set() (it allocates the member and can run out of memory) fails the operation.  For every
+    call through the default_value_set slot: assuming it answered non-zero, no successful return of the enclosing codec
+    function is reachable (encoders: encoded >= 0; decoders: RC_OK)."""
+    from .. import assume
+    from ..retabs import dec_return
+    from . import c07
+    r = Rule("R14.10", "a failed default_value_set (allocation failure) makes the enclosing encode/decode fail", floor=4)
+    for f in sorted(prog.funcs.values(), key=lambda f: f.key):
+        sites = [(b, i, e) for b, i, e in f.calls() if e.get("slot") == "default_value_set"]
+        if not sites:
+            continue
+        if "asn_enc_rval" in f.ret_type:
+            classify = c07.make_classifier(f)
+        elif "asn_dec_rval" in f.ret_type:
+            def classify(rb, ri, re_, env=None, f=f):
+                env = env or {}
+                ex = re_.get("expr")
+                t = strip_casts(ex["tree"]) if ex else None
+                if is_var(t):
+                    v = env.get((t[1], "code"))
+                    if isinstance(v, int):
+                        return "success" if v == 0 else "fail"
+                d = dec_return(f, rb, ri, re_)
+                c = d.get("code", "unknown")
+                return "success" if c == "RC_OK" else ("fail" if c in ("RC_FAIL", "RC_WMORE") else "unknown:" + c)
+        else:
+            continue
+        n = 0
+        for b, i, e in sorted(sites, key=lambda z: z[2].get("line") or 0):
+            n += 1
+            key = "default_value_set#%d" % n
+            subj = assume.subject_of_call(e, None)
+            if subj is None:
+                r.bad(f, key, "result of default_value_set is discarded: when it cannot allocate, the member is silently left unset", e["line"])
+                continue
+            bad = None
+            for fe in (False, True):
+                hits = assume.explore(f, b, i, subj, -1, classify, origin_callid=e.get("id"), from_entry=fe)
+                bad = next((h for h in hits if h[0] == "success"), None)
+                if bad is None and not any(h[0].startswith("unknown") for h in hits):
+                    break       # decided without the entry context; otherwise classify again with the facts from the entry
+            if bad is None:
+                r.ok(f, key, "assuming it failed, no successful return is reachable", e["line"])
+            else:
+                kind, rb, ri, re_, path, lost = bad
+                r.bad(f, key, "assuming default_value_set failed, control reaches the successful return at line %s: an allocation failure is "
+                              "swallowed and the result differs from the fault-free one" % re_.get("line"), e["line"],
+                      witness={"path": guards.path_lines(f, list(path))})
+    return r
+
+
 def run(ctx):
     prog = ctx.prog("S")
     tab = load_tables("c14")
-    return r14_1_2_5(prog, tab) + [r14_3(prog, tab), r14_4(prog, tab), r14_6(prog, tab), r14_7(prog, tab), r14_8(prog, tab), r14_9(prog, tab)]
+    return r14_1_2_5(prog, tab) + [r14_3(prog, tab), r14_4(prog, tab), r14_6(prog, tab), r14_7(prog, tab), r14_8(prog, tab), r14_9(prog, tab), r14_10(prog, tab)]
 
 
 def thorough(ctx):
